@@ -100,6 +100,11 @@ type xnode struct {
 type xrender struct {
 	probe      int
 	sloppyOnly bool
+	// parens: 0 = every operand that is not a simple leaf is parenthesised (tree shape is exactly the generated
+	// one); 1 = additionally the top-level expression of the context and the bodies of arrow functions are left
+	// bare; 2 = no generated parentheses at all (the program is whatever the text parses as: esbuild keeps track
+	// of source parentheses in a few places, so fully parenthesised inputs never exercise its own decisions)
+	parens int
 }
 
 func (r *xrender) leafText(l string) string {
@@ -138,7 +143,17 @@ func (r *xrender) render(n *xnode) string {
 			if s[i] == '$' {
 				kid := n.kids[k]
 				t := r.render(kid)
-				if kid.op == nil && isSimpleLeaf(t) {
+				bare := kid.op == nil && isSimpleLeaf(t)
+				if r.parens == 2 {
+					bare = true
+				} else if r.parens == 1 && strings.HasSuffix(s[:i], "=> ") && !strings.HasPrefix(t, "{") {
+					bare = true
+				}
+				if bare {
+					// never fuse "-" "-x" into "--x" (a different token)
+					if o := out.String(); len(o) > 0 && len(t) > 0 && (o[len(o)-1] == '-' || o[len(o)-1] == '+') && o[len(o)-1] == t[0] {
+						out.WriteByte(' ')
+					}
 					out.WriteString(t)
 				} else {
 					out.WriteString("(" + t + ")")
@@ -158,7 +173,28 @@ func (r *xrender) render(n *xnode) string {
 type xctx struct {
 	name string
 	tpl  string
-	tags string
+	tags string // "skip", or "parens1"/"parens2": parenthesisation mode used when rendering into this context
+}
+
+func (c xctx) parensMode() int {
+	switch c.tags {
+	case "parens1":
+		return 1
+	case "parens2":
+		return 2
+	}
+	return 0
+}
+
+// withParens returns copies of the contexts that render with the given parenthesisation mode
+func withParens(ctxs []xctx, mode int) []xctx {
+	var r []xctx
+	for _, c := range ctxs {
+		c.tags = fmt.Sprintf("parens%d", mode)
+		c.name = fmt.Sprintf("%s/parens%d", c.name, mode)
+		r = append(r, c)
+	}
+	return r
 }
 
 var xContexts = []xctx{
@@ -227,7 +263,7 @@ func xCtxRender(ctx xctx, r *xrender, n *xnode) string {
 	for i := 0; i < len(s); i++ {
 		if s[i] == '$' && i+1 < len(s) && s[i+1] == '0' {
 			t := r.render(n)
-			if n.op == nil && isSimpleLeaf(t) {
+			if (n.op == nil && isSimpleLeaf(t)) || (r.parens >= 1 && !strings.HasPrefix(t, "{") && !strings.HasPrefix(t, "function") && !strings.HasPrefix(t, "class") && !strings.HasPrefix(t, "async function")) {
 				out.WriteString(t)
 			} else {
 				out.WriteString("(" + t + ")")
